@@ -119,18 +119,30 @@ Theorem C15_value_block_grouping : forall l1 k l2,
   block_value (l1 ++ BExpr k :: l2) = block_value (l1 ++ BExpr TLParen :: l2).
 Proof. exact grouping_item_any_lemma. Qed.
 
-(* the statement-vs-expression decision for the block's tail: an expression followed only by
-   semicolons is the value, a statement there makes the block yield null *)
-Theorem C15_value_block_tail_expression : forall l k ss last i,
-  block_state l None false 0 = Some (last, false, i) ->
-  can_begin_expression k = true -> forallb is_semi ss = true ->
-  block_value (l ++ BExpr k :: ss) = Value i.
-Proof. exact tail_expression_is_value. Qed.
+(* the block of an if-expression is a single expression (2fc971b): semicolons, one expression,
+   semicolons is accepted and its value is that expression; the empty block yields null ... *)
+Theorem C15_value_block_single_expression : forall s1 k s2,
+  forallb is_semi s1 = true -> forallb is_semi s2 = true -> can_begin_expression k = true ->
+  block_value (s1 ++ BExpr k :: s2) = Value 0.
+Proof. exact single_expression_lemma. Qed.
 
-Theorem C15_value_block_tail_statement : forall l ss last i,
-  block_state l None false 0 = Some (last, false, i) -> forallb is_semi ss = true ->
-  block_value (l ++ BTerm :: ss) = Null /\ block_value (l ++ BBlock :: ss) = Null.
-Proof. exact tail_statement_is_null. Qed.
+Theorem C15_value_block_empty : forall ss, forallb is_semi ss = true -> block_value ss = Null.
+Proof. exact empty_block_lemma. Qed.
+
+(* ... and nothing else is: whatever has a value has exactly that shape *)
+Theorem C15_value_block_accepted_is_single_expression : forall l j, block_value l = Value j ->
+  j = O /\ exists s1 k s2, l = s1 ++ BExpr k :: s2
+                           /\ forallb is_semi s1 = true /\ forallb is_semi s2 = true /\ expr_start_listed k = true.
+Proof. exact accepted_is_single_expression. Qed.
+
+(* a statement anywhere in the block, or a second expression, is rejected (never silently dropped) *)
+Theorem C15_value_block_statement_rejected : forall l,
+  existsb is_stmt_item l = true -> block_value l = ParseError.
+Proof. exact statement_rejects_lemma. Qed.
+
+Theorem C15_value_block_two_expressions_rejected : forall l1 k1 l2 k2 l3,
+  block_value (l1 ++ BExpr k1 :: l2 ++ BExpr k2 :: l3) = ParseError.
+Proof. exact two_expressions_reject. Qed.
 
 (* ---- statement sequences (Parser::parse at top level, Parser::block_statements in { }),
    Model/BlockParse.v parse_sequence: for all item lists *)
@@ -157,11 +169,12 @@ Theorem C15_sequence_semicolon_after_block : forall top l1 l2,
 Proof. exact seq_semi_after_block. Qed.
 
 Example C15_value_block_nonvacuous :
-  block_value [BTerm; BSemi; BExpr TTilde; BSemi] = Value 0                       (* { let d = 1; ~5; } *)
-  /\ block_value [BExpr TIdentifier; BSemi; BSemi; BExpr TLParen] = Value 1%nat
-  /\ block_value [BExpr TInt; BSemi; BBlock] = Null                               (* { 7; while false { } } *)
-  /\ block_value [BExpr TInt; BTerm] = ParseError                                 (* { 7 let d = 1 } *)
-  /\ block_state [BBlock; BExpr TInt; BSemi] None false 0 = Some (Some 0%nat, false, 1%nat)
+  block_value [BSemi; BExpr TTilde; BSemi; BSemi] = Value 0                       (* { ; ~5 ;; } *)
+  /\ block_value [BTerm; BSemi; BExpr TTilde; BSemi] = ParseError                   (* { let d = 1; ~5; } *)
+  /\ block_value [BExpr TIdentifier; BSemi; BSemi; BExpr TLParen] = ParseError      (* { qq ;; (1 + 2) } *)
+  /\ block_value [BExpr TInt; BSemi; BBlock] = ParseError                          (* { 7; while false { } } *)
+  /\ block_value [BExpr TInt; BTerm] = ParseError                                  (* { 7 let d = 1 } *)
+  /\ block_value [BSemi; BSemi] = Null
   /\ parse_sequence true [STerm; SSemi; SBlock; STerm; SSemi] = Some 3%nat     (* let d = 1; while false { } g(1); *)
   /\ parse_sequence false [STerm; STerm] = None                                  (* { g(1) let d = 1 } *)
   /\ parse_sequence false [SBlock; STerm] = Some 2%nat                           (* { while false { } g(1) } *)
